@@ -235,6 +235,12 @@ def run(ctx):
     ctx.assumptions += [
         "credentials are identified by json.Marshal (vcEqual) / Raw(); distinct generated credentials have distinct identities",
         "JSONPath and regular expressions outside the generated subset are not covered",
+        "wallet_verifier_agree is proved under `hstable` (re-matching the presented credentials reproduces the wallet's selection); "
+        "without it the statement is false of the code (Lean witness wallet_verifier_disagree_witness, open known finding, replayed from the corpus)",
+        "input descriptor ids are distinct (PE spec; the JSON schema cannot express it) and wallet credentials are parsed ones "
+        "(Format() ldp_vc/jwt_vc); in-memory 'holder credentials' (Format()==\"\") are matched but never presented",
+        "match_complete_or_error assumes an error ignored by the enum loop did not hide a match (array with a null/object element before the matching string)",
+        "credentials parsed from an envelope have a non-empty Raw() (go-did); PresentationSigner and envelope parsing are taken as data",
     ]
 
     binary = ctx.go_test_binary(PKG, HARNESS, "c12")
